@@ -1805,6 +1805,62 @@ fam!(distances, UNSUP, distances_t);
 fam!(kernels, UNSUP, kernels_t);
 fam!(params, UNSUP, params_t);
 
+/// DBSCAN models with 260..400 clusters (pairs of points on a line), queried between neighbouring clusters where
+/// the votes of the two clusters tie, and at random places: the restored model must answer like the original, and
+/// the original like itself on a second call
+fn dbscan_many_clusters(c: &mut Case) {
+    let k = c.rng.us(260, 400);
+    let gap = *c.rng.pick(&[1.5, 1.625, 1.75]);
+    let mut rows: Vec<Vec<f64>> = Vec::new();
+    for i in 0..k {
+        rows.push(vec![gap * i as f64 - 0.125]);
+        rows.push(vec![gap * i as f64 + 0.125]);
+    }
+    let perm = c.rng.perm(rows.len());
+    let rows: Vec<Vec<f64>> = perm.iter().map(|&i| rows[i].clone()).collect();
+    let mut qs: Vec<Vec<f64>> = (0..150).map(|_| vec![gap * c.rng.below(k - 1) as f64 + gap / 2.0]).collect();
+    qs.extend((0..50).map(|_| vec![c.rng.uni(-1.0, gap * k as f64)]));
+    c.describe(json!({"type": "DBSCAN", "clusters": k, "gap": gap, "eps": 1.0, "min_samples": 2, "rows": rows.len(), "queries": qs.len()}));
+    c.hash_f64s(&[k as f64, gap]);
+    c.hash_f64s(&qs.iter().map(|q| q[0]).collect::<Vec<f64>>());
+    c.nontrivial();
+    let x = DenseMatrix::from_2d_vec(&rows);
+    let q = DenseMatrix::from_2d_vec(&qs);
+    let algo = if c.rng.bool(0.5) { KNNAlgorithmName::LinearSearch } else { KNNAlgorithmName::CoverTree };
+    let model = match c.must("DBSCAN::fit", || DBSCAN::fit(&x, DBSCANParameters::default().with_eps(1.0).with_min_samples(2).with_algorithm(algo))) {
+        Some(Ok(m)) => m,
+        Some(Err(e)) => {
+            c.check("fit.ok", false, "DBSCAN/many-clusters", || format!("fit returned Err({})", e));
+            return;
+        }
+        None => return,
+    };
+    let sg = "DBSCAN/many-clusters";
+    let p0 = match c.must("DBSCAN::predict", || model.predict(&q)) {
+        Some(Ok(v)) => v,
+        _ => return,
+    };
+    let distinct = { let mut d: Vec<i64> = p0.iter().map(|v| *v as i64).collect(); d.sort(); d.dedup(); d.len() };
+    c.bucket(if distinct > 100 { "predicted-labels:>100-distinct" } else { "predicted-labels:<=100-distinct" });
+    if let Some(Ok(p1)) = c.must("DBSCAN::predict(again)", || model.predict(&q)) {
+        c.check("predict.repeatable", p1 == p0, sg, || format!("two predict calls on one model differ on {} of {} rows", p1.iter().zip(p0.iter()).filter(|(a, b)| a != b).count(), p0.len()));
+    }
+    for json in [false, true] {
+        let fmt = if json { "json" } else { "bincode" };
+        match scverif::restored(&model, json) {
+            Ok(m2) => {
+                if let Some(Ok(p2)) = c.must("DBSCAN::predict(restored)", || m2.predict(&q)) {
+                    c.check(&format!("{}.outputs", fmt), p2 == p0, sg, || format!("restored model predicts differently on {} of {} rows", p2.iter().zip(p0.iter()).filter(|(a, b)| a != b).count(), p0.len()));
+                }
+                c.check(&format!("{}.equal", fmt), m2 == model, sg, || "restored model != original".to_string());
+            }
+            Err(e) => {
+                c.check(&format!("{}.roundtrip-ok", fmt), false, sg, || e.clone());
+            }
+        }
+    }
+}
+
 fn main() {
     runner::main(Spec {
         property: "C19",
@@ -1845,6 +1901,7 @@ fn main() {
             Family::new("svr", 960, 48000, svr),
             Family::new("kmeans", 480, 24000, kmeans),
             Family::new("dbscan", 800, 40000, dbscan),
+            Family::new("dbscan_many_clusters", 24, 480, dbscan_many_clusters),
             Family::new("pca", 800, 40000, pca),
             Family::new("truncated_svd", 480, 24000, truncated_svd),
             Family::new("cover_tree", 640, 32000, cover_tree),
